@@ -232,7 +232,20 @@ class HistoryRunner:
                 self.pending_changes.add("rmdo")
         elif k == "mkpath":
             p = op[1]
+            dangling = self.__dict__.setdefault("dangling", set())
+            if len(op) > 2 and op[2] == "dangling":
+                # a symlink whose destination does not exist is put at the watched path: the path still does NOT exist
+                # (every existence test follows links), so nothing may happen because of it
+                if p not in m.fs and p not in dangling and m.rule_for(p) is None:
+                    os.makedirs(os.path.dirname(disk.abspath(p)), exist_ok=True)
+                    os.symlink("rv-no-such-destination", disk.abspath(p))
+                    dangling.add(p)
+                    self.out.events["c14:dangling-symlink-at-a-watched-path"] += 1
+                return
             if p not in m.fs:
+                dangling.discard(p)
+                if os.path.islink(disk.abspath(p)):
+                    os.unlink(disk.abspath(p))
                 if len(op) > 2 and op[2] == "dir":
                     # the watched path comes into existence as a directory; a directory whose name is matched by
                     # a rule would be a directory *target* (kept out of the generators, DESIGN §5)
@@ -248,6 +261,10 @@ class HistoryRunner:
                 self.pending_changes.add("mkpath")
         elif k == "rmpath":
             p = op[1]
+            if p in self.__dict__.get("dangling", ()):
+                os.unlink(disk.abspath(p))
+                self.dangling.discard(p)
+                return
             if p in m.fs and m.fs[p].owner == "user":
                 disk.remove(p)
                 m.user_remove(p)
